@@ -26,6 +26,41 @@ PROFILE = {"remove_column": 6, "remove_table": 3, "summary": 4, "update_summary"
            "rename_table": 2, "duplicate_table": 1.5, "modify_type": 4, "bulk_remove": 5, "undo_earlier": 3}
 
 
+def setup_set_iteration(h):
+  """Set-up bundles for sites that iterate Python sets of strings: a summary table grouped by a ChoiceList
+  column (one group per element of a cell), filled by cells that bring several NEW choices at once, by a
+  RenameChoices merge and by two list-typed group-by columns (cartesian product of two sets)."""
+  from gx.gen_hist import World
+  rng, gen = h.rng, h.gen
+  w = World(h.doc)
+  ts = w.user_tables()
+  if not ts:
+    return
+  t = rng.choice(ts)
+  cl = [c for c in w.data_cols(t) if c["type"] == "ChoiceList"]
+  while len(cl) < 2:
+    name = gen.new_name()
+    yield [["AddColumn", t["tableId"], name, {"type": "ChoiceList", "isFormula": False}]]
+    w = World(h.doc)
+    t = w.tables[t["tableId"]]
+    cl = [c for c in w.data_cols(t) if c["type"] == "ChoiceList"]
+  words = ["apple", "banana", "cherry", "date", "elder", "fig", "grape", "kiwi", "lime", "mango"]
+  def cell():
+    return ["L"] + rng.sample(words, rng.randint(2, 5))
+  if rng.random() < 0.5:
+    yield [["BulkAddRecord", t["tableId"], [None, None], {cl[0]["colId"]: [cell(), cell()], cl[1]["colId"]: [cell(), cell()]}]]
+  gb = [cl[0]["ref"]] + ([cl[1]["ref"]] if rng.random() < 0.4 else [])
+  yield [["CreateViewSection", t["ref"], 0, "record", gb, None]]
+  yield [["BulkAddRecord", t["tableId"], [None, None, None],
+          {cl[0]["colId"]: [cell(), cell(), cell()], cl[1]["colId"]: [cell(), cell(), cell()]}]]
+  w = World(h.doc)
+  t = w.tables[t["tableId"]]
+  if t["rows"]:
+    yield [["UpdateRecord", t["tableId"], rng.choice(t["rows"]), {cl[0]["colId"]: cell()}]]
+    ren = dict((x, "merged") for x in rng.sample(words, 3))
+    yield [["RenameChoices", t["tableId"], cl[0]["colId"], ren]]
+
+
 def run(ck):
   common.setup_repo_path()
   from gx.hist_run import HistoryRun
@@ -40,6 +75,8 @@ def run(ck):
   hists = []
   for i in range(n_hist):
     h = HistoryRun(random.Random("%s/%s/%d" % (PROP, ck.seed, i)), profile=PROFILE, n_bundles=14, oracles=())
+    if i % 2 == 1:
+      h.setup = setup_set_iteration
     h.run()
     hists.append(h.log)
     if h.stats["ok"] >= 8:
